@@ -622,4 +622,14 @@ example : McQuiet exInClass := by
   rw [this]; decide
 example : borrowCheck exInClass = some exInClass := by decide
 
+/-- **C02, from the edges alone** (call graphs without captured references): no `&mut` input, no non-Copy value both taken by
+    value and borrowed, at most one by-value consumer per control-flow path — then the borrow checker is the identity, silent,
+    and the ordering step succeeds. Every hypothesis is a decidable statement about the edges of the call graph. -/
+theorem inClass_captureFree_accepted {g : Graph} {τ : List Nat} (hwf : g.wellFormed = true) (hτ : isTopo g τ = true)
+    (hcf : captureFree g = true) (hedges : inClassEdges g = true) (hmc : McQuiet g) :
+    borrowCheck g = some g ∧ ∃ σ, order g = some σ ∧ isRun g σ = true ∧ σ.length = g.size :=
+  inClass_borrowCheck_identity hwf hτ hmc (mwbQuiet_of_inClassEdges hcf hedges) (noConflict_of_inClassEdges hcf hedges)
+
+example : captureFree exInClass = true ∧ inClassEdges exInClass = true := by decide
+
 end Pxv.CG
